@@ -25,7 +25,7 @@ SPEC = {
                "TestDecode/tag_inner_blank_run": 0.15, "TestDecode/tag_inner_tab": 0.08,
                "TestDecode/tag_inner_blank_run_uri": 0.03, "TestDecode/tag_inner_blank_run_uripost": 0.03,
                "TestDecode/tag_inner_blank_run_raw": 0.03, "TestDecode/tag_inner_blank_run_jsonline": 0.03,
-               "TestDecode/preload": 0.35, "TestDecode/preload_multi_pass": 0.2, "TestDecode/preload_json_array": 0.009,
+               "TestDecode/preload": 0.24, "TestDecode/preload_multi_pass": 0.2, "TestDecode/preload_json_array": 0.009,
                "TestDecode/preload_json_pretty": 0.009, "TestDecode/preload_uri": 0.06, "TestDecode/preload_uripost": 0.06,
                "TestDecode/preload_raw": 0.06, "TestDecode/preload_jsonline": 0.06, "TestDecode/preload_no_final_newline": 0.04,
                # "[Name: value]" values with brackets at their very ends / colons inside (in effect for at least one entry), the `headers` option
@@ -33,8 +33,8 @@ SPEC = {
                "TestDecode/directive_value_ends_with_bracket_uripost": 0.035, "TestDecode/directive_value_ends_with_bracket_run": 0.04,
                "TestDecode/directive_value_starts_with_bracket": 0.06, "TestDecode/directive_value_with_colon": 0.06,
                "TestDecode/directive_host_ipv6_literal_without_port": 0.008,
-               "TestDecode/config_headers": 0.35, "TestDecode/config_headers_uri": 0.08, "TestDecode/config_headers_uripost": 0.08,
-               "TestDecode/config_headers_raw": 0.07, "TestDecode/config_headers_jsonline": 0.07,
+               "TestDecode/config_headers": 0.25, "TestDecode/config_headers_uri": 0.08, "TestDecode/config_headers_uripost": 0.08,
+               "TestDecode/config_headers_raw": 0.053, "TestDecode/config_headers_jsonline": 0.07,
                "TestDecode/config_header_value_ends_with_bracket": 0.1, "TestDecode/config_header_value_ends_with_bracket_uri": 0.025,
                "TestDecode/config_header_value_ends_with_bracket_uripost": 0.025, "TestDecode/config_header_value_ends_with_bracket_raw": 0.02,
                "TestDecode/config_header_value_ends_with_bracket_jsonline": 0.02, "TestDecode/config_header_value_ends_with_bracket_run": 0.045,
